@@ -233,6 +233,13 @@ def cands_tree(case, target):
                             not (st[0] == "out" and st[1][0] in ("d", "lit")):
                         for leaf in _target_leaf(st, data, target):
                             yield _with_unit(case, ui, IR.set_at(u, path, lst[:j] + [["out", leaf]] + lst[j + 1:]))
+                        for _, mp, mso in IR.walk(st, "s"):
+                            if mso != "S" and mp[0] == "f" and mp[1] == "map" and mp[3] and mp[3][0][0] is None \
+                                    and mp[3][0][1][0] == "klit" and contains_nonce(mp, "E", data, target):
+                                for subj in (NEUTRAL_M, NEUTRAL):
+                                    new = ["out", ["f", mp[3][0][1][1], subj, mp[3][1:]]]
+                                    if new != st:
+                                        yield _with_unit(case, ui, IR.set_at(u, path, lst[:j] + [new] + lst[j + 1:]))
                         ts = _target_string(case, target)
                         if ts is not None and st != ["out", ["d", "dz"]]:
                             yield dict(_with_unit(case, ui, IR.set_at(u, path, lst[:j] + [["out", ["d", "dz"]]] + lst[j + 1:])),
